@@ -11,12 +11,15 @@ _cache = {}
 _nbuckets = [0]
 
 
+_shift = [0]          # days added to BASE for the current case (`base_days`)
+
+
 def at(us):
-    return BASE + datetime.timedelta(microseconds=us)
+    return BASE + datetime.timedelta(days=_shift[0], microseconds=us)
 
 
 def populated(times, tags, prefix):
-    key = (tuple(times), tuple(tags), prefix)
+    key = (tuple(times), tuple(tags), prefix, _shift[0])
     if key in _cache:
         return _cache[key]
     s3c = fake_s3.install(random_ids=len(_cache) + 17)
@@ -51,6 +54,7 @@ class _Formatting(logging.Handler):
 
 def run_c16(case):
     times = case['times']
+    _shift[0] = case.get('base_days', 0)
     cas, ids = populated(times, case.get('tags') or [0] * len(times), case.get('prefix', ''))
     if not case.get('log'):
         return lookup(case, cas, ids)
